@@ -285,6 +285,7 @@ def run_inproc(ctx, i, rng, res):
             ctx.mark(witness)
             res.kind("template:" + tag)
             before = snapshot(ws.root, sentinel)
+            H.reset_logging()
             srv = H.Server(["--incremental_sync"] + (["--debug_log"] if rng.random() < 0.15 else []), nthreads=rng.choice([1, 2, 4]))
             Armed(srv)
             srv.initialize(ws.root)
